@@ -383,9 +383,18 @@ def check_dispatch(mon, prev, snap, tx):
                         f"definition need={want_need} tail={want_tail} (transaction {tx.index})",
                         {"step": label(snap, i)})
         if bool(raw["_safe"]) != model.safe(i) or bool(raw["_safe_ignoring_hold"]) != model.safe(i, True):
+            chain = []
+            cur = snap["node"][i][2]
+            while cur is not None and cur in model.steps and len(chain) < 6:
+                cs = model.steps[cur]
+                chain.append((label(snap, cur)[:60], STATE_NAME[cs["state"]], cs["_holding"],
+                              cs["_safe"], cs["_check_safe"], snap["node"][cur][3]))
+                cur = snap["node"][cur][2]
             mon.finding("cached _safe differs from its definition",
                         f"{label(snap, i)}: cached {raw['_safe']}/{raw['_safe_ignoring_hold']} "
-                        f"definition {model.safe(i)}/{model.safe(i, True)} (transaction {tx.index})")
+                        f"definition {model.safe(i)}/{model.safe(i, True)} (transaction {tx.index}) "
+                        f"state={STATE_NAME[raw['state']]} creator chain (label,state,holding,_safe,"
+                        f"_check_safe,detached)={chain} dispatched={[label(snap, d)[:50] for d in dispatched]}")
         if bool(raw["_ready"]) != model.ready(i):
             mon.finding("cached _ready differs from its definition",
                         f"{label(snap, i)}: cached {raw['_ready']} definition {model.ready(i)}")
